@@ -11,7 +11,7 @@ CLAIMS = {
             "count_true/fold_or/fold_and/alldifferent build trees whose reference denotation equals the Python "
             "meaning of the call; (Z3M) both integer bounds are asserted for every IntVar, the model is read back "
             "into sol for every variable, False only on unsat; (VID) variable ids equal list positions in every "
-            "history (append-only lists, constructors only in Solver)."
+            "history (VID-4) expression trees are immutable: op/operands stored only by Expr.__init__, no in-place mutation of an operands list anywhere, no in-place operator dunder returning self. Every arity an operator's meaning allows is translated (up to 3), and 13 nested trees are translated and compared with their meaning."
         ),
         note="Trusted: z3 itself and its coercion of Python literals; the E8 evaluator and the reference table REF in sa/rules/exprmodel.py.",
         technique="static analysis: construction-site enumeration + finite-domain abstract evaluation of translator handlers (ast)",
@@ -27,7 +27,7 @@ CLAIMS = {
             "None, steps None,+-1,+-2,+-3, for axis lengths 0..4, plus coordinate lists) and must select exactly "
             "what Python's list-of-lists indexing selects, with the same shape and the same IndexError/ValueError "
             "behaviour; (SLC-2) _range_size is proved to be ceil(distance/|step|) symbolically for every step, zero "
-            "step rejected; (SLC-3) the gather offset is row * shape[1] + col."
+            "step rejected; (SLC-3) the gather offset is row * shape[1] + col (local aliases read through). When _range_size is not written as the catalogued sign split it is decided on a grid against len(range()) instead (weaker, said in the evidence). Arrays built from nested lists have the inferred shape and row-major order, len() counts rows, ragged/empty input raises ValueError."
         ),
         note="Trusted: the abstract evaluator (sa/core/fde.py, classworld.py); Python's own slicing as the specification; the small-model argument in DESIGN.md C13 (steps beyond +-3 are covered by SLC-2/SLC-3 only).",
         technique="static analysis: vocabulary check + finite-domain abstract evaluation of __getitem__ + symbolic ceiling-division identity (ast)",
@@ -60,7 +60,7 @@ CLAIMS = {
             "atoms; (SGR-2/3) SAT/UNSAT lines and assignment lines of both modes are parsed into the right variables with "
             "bool/int types, undecided keys stay None; (SGR-4/5) description = declarations, constraints, key line naming "
             "exactly the registered keys in the syntax the wrapper parses; (SGR-6) native operators' operand layout and "
-            "length guards; (SGR-7) name -> class -> external entry point. Not decided: the external solvers."
+            "length guards; (SGR-7) name -> class -> external entry point. Conversions run in sequence under a model of id() in which the addresses of a finished conversion's temporaries are reused; 16 nested trees are printed and the text, read back with the Sugar grammar (n-ary +, left-associated -), must mean what the tree means. Not decided: the external solvers."
         ),
         note="Trusted: CspuzSugarInterface.java as the definition of the wire format; the Sugar grammar name table in sa/rules/c03.py; pycsugar/enigma_csp/cspuz_core share that format.",
         technique="static analysis: Java println-template extraction + abstract evaluation of printer/parsers (ast, regex)",
@@ -96,7 +96,7 @@ CLAIMS = {
             "explicit argument wins, None reads config.default_backend at call time, all six names resolve to their classes, "
             "unknown names raise ValueError, find_answer/solve pass their own argument; (CFG-4) every graph function with a "
             "native route emits native operators exactly when argument-else-config (set after import) says so, never for "
-            "acyclic connectivity, division variant governed by its own flag, path form raises when off."
+            "acyclic connectivity, division variant governed by its own flag, path form raises when off. CFG-3 also covers modules that are installed but fail to import (absent / broken / importable: 81 combinations): only importable ones count."
         ),
         note="Trusted: the abstract evaluator; importability modelled as ImportError from the import statement.",
         technique="static analysis: exhaustive finite-domain abstract evaluation of configuration/dispatch/gating code (ast)",
@@ -162,7 +162,7 @@ CLAIMS = {
             "character-class validation; (EXC-7) each leaf combinator, each bundled puzzle combinator, Rooms/heyawake on five "
             "boards, the URL entry points and the compass parser are evaluated on all short strings over one representative "
             "per character class: every outcome must be None, ValueError, or a value that serializes and decodes back to "
-            "itself. The unvalidated legacy parser compass.parse_puzz_link_url is recorded as known findings."
+            "itself. Same-module helpers that receive the input are analysed under an entry contract computed from their call sites; cursor-advancing helpers and one-line predicate helpers are summarised. (EXC-6V) the character-class validators the rules rely on are evaluated on all strings of length <= 2 over the character classes. A proof rule that fails without an EXC-7 witness makes the check exit 2, not 1. (compass.parse_puzz_link_url was repaired; no known findings remain.)"
         ),
         note="Trusted: the guard-fact walker and Fourier-Motzkin prover; the abstract evaluator; the character-class alphabet. Non-termination and memory are not decided.",
         technique="static analysis: may-raise analysis over guard facts with linear entailment + finite-quotient abstract evaluation (ast)",
@@ -181,7 +181,7 @@ CLAIMS = {
             "(GEN-1) generate_problem under all 3^4 x 2 x 2 scripted callback behaviours returns None or a problem whose own "
             "solver call was SAT and whose answer passed uniqueness; (GEN-2, PUR-2) every update ArrayBuilder2D proposes on 4 "
             "boards x 8 option sets keeps range, choice set, point symmetry and adjacency, and copy_with_update/neighbour "
-            "generation never mutate or share rows with the previous problem. Not decided: xorshift's statistical quality."
+            "generation never mutate or share rows with the previous problem. If a state word is not bounded for arbitrary seeds, XorShift(seed).next() is evaluated for seeds around 2**32 and an output outside [0, 2**32) is reported. Not decided: xorshift's statistical quality."
         ),
         note="Trusted: the abstract evaluator; uniformity is argued from whole-block acceptance + a + x % w + the proven generator range.",
         technique="static analysis: import/name confinement scan, bit-width abstract interpretation, abstract evaluation with scripted generators/callbacks (ast)",
@@ -196,7 +196,7 @@ CLAIMS = {
             "is the cell removed; (SEG-E) abstract evaluation on 9 board/bound configurations x 3 draw scripts: from initial(), "
             "all proposed updates are applied breadth-first over the reachable values (state budget): every value is a partition "
             "of the board into orthogonally connected blocks within all bounds, and neither candidates() nor copy_with_update "
-            "modifies the value it was applied to; (RNG-1) segmentation.py uses no ambient randomness."
+            "modifies the value it was applied to; (RNG-1) segmentation.py uses no ambient randomness; (SEG-S) split_block, for every connected block of at most 5 (thorough: 6) cells in a 3x3 board and every ordered pair of distinct seeds, returns two non-empty orthogonally connected parts that partition the block. Unmeetable bounds: initial() may give up by raising, never by returning a partition outside the bounds."
         ),
         note="Trusted: abstract evaluator, guard walker and Fourier-Motzkin prover. Boards up to 3x3 and three draw scripts stand for all boards/seeds in SEG-E; allow_unmet_constraints_first is the caller's choice and not evaluated.",
         technique="static analysis: guard-fact linear entailment at update sites + bounded abstract evaluation of update histories (ast)",
@@ -226,8 +226,10 @@ CLAIMS = {
     ),
     "C04": dict(
         text=(
-            "Decides C04 relative to a reference schema: active_vertices_connected (acyclic off/on) is evaluated abstractly on eight "
-            "small graphs (single vertex, edge, path, triangle, star with isolated vertex, square, two components, parallel edges); "
+            "Decides C04 relative to a reference schema: active_vertices_connected (acyclic off/on) is evaluated abstractly on eleven "
+            "small graphs (single vertex, edge, edge plus isolated vertex, path, triangle, star with isolated vertex, square, two components, "
+            "parallel edges, triangle plus isolated vertex, parallel edges plus isolated vertex), with the activity flags given as variables, "
+            "with Python constants among them and as negated variables; "
             "the constraint trees it posts are canonicalised (commutativity, comparison direction, negation, count/threshold normal "
             "forms; rank domains compared by sufficiency >= n) and must equal the reference rank/root schema written in the checker "
             "(each active vertex has >=1 [==1 when acyclic, with distinct neighbour ranks] active strictly-lower neighbour or is "
